@@ -38,40 +38,43 @@ Definition set_nth {A} (i : nat) (v : A) (l : list A) : list A :=
 
 Definition stream_of (streams : list (list ev)) (k : nat) : list ev := nth k streams [].
 
-Definition mp_end_state (m : mp) : nat := (2 * length (m_ranges m) + 1)%nat.
+Definition mp_end_state (m : mp) : nat := S (2 * length (m_ranges m)).
+
+(* The part of the loop body after `if let Some(cur)`: decide by `state`. `again` is the
+   next loop iteration. *)
+Definition mp_idle (streams : list (list ev)) (again : mp -> M (mp * pollres)) (m : mp) : M (mp * pollres) :=
+  let i := Nat.div2 (m_state m) in                      (* state >> 1 *)
+  let odd := Nat.odd (m_state m) in                     (* state & 1 == 1 *)
+  let n := length (m_ranges m) in
+  if Nat.eqb i n && odd then
+    if m_rem m =? 0 then Ok (m, PEnd) else Panic P_DEBUG_ASSERT   (* debug_assert_eq!(remaining, 0) *)
+  else if Nat.eqb i n then
+    let! rem := u64_sub (m_rem m) (lenN PART_TRAILER) in
+    Ok ({| m_cur := None; m_state := S (m_state m); m_ph := m_ph m; m_ranges := m_ranges m;
+           m_rem := rem; m_calls := m_calls m |}, PData PART_TRAILER)
+  else if odd then
+    match nth_error (m_ranges m) i with
+    | None => Panic P_INDEX
+    | Some (a, e) =>
+        let! l := u64_sub e a in
+        again
+          {| m_cur := Some {| x_s := stream_of streams (length (m_calls m)); x_rem := l |};
+             m_state := m_state m; m_ph := m_ph m; m_ranges := m_ranges m;
+             m_rem := m_rem m; m_calls := (a, e) :: m_calls m |}
+    end
+  else
+    match nth_error (m_ph m) i with
+    | None => Panic P_INDEX
+    | Some v =>                                         (* mem::take(&mut part_headers[i]) *)
+        let! rem := u64_sub (m_rem m) (lenN v) in
+        Ok ({| m_cur := None; m_state := S (m_state m); m_ph := set_nth i [] (m_ph m);
+               m_ranges := m_ranges m; m_rem := rem; m_calls := m_calls m |}, PData v)
+    end.
 
 Fixpoint mp_poll (fuel : nat) (streams : list (list ev)) (m : mp) : M (mp * pollres) :=
   match fuel with
   | O => Panic P_FUEL
   | S f =>
-    let idle (m : mp) : M (mp * pollres) :=
-      let i := Nat.div2 (m_state m) in                      (* state >> 1 *)
-      let odd := Nat.odd (m_state m) in                     (* state & 1 == 1 *)
-      let n := length (m_ranges m) in
-      if Nat.eqb i n && odd then
-        if m_rem m =? 0 then Ok (m, PEnd) else Panic P_DEBUG_ASSERT   (* debug_assert_eq!(remaining, 0) *)
-      else if Nat.eqb i n then
-        let! rem := u64_sub (m_rem m) (lenN PART_TRAILER) in
-        Ok ({| m_cur := None; m_state := S (m_state m); m_ph := m_ph m; m_ranges := m_ranges m;
-               m_rem := rem; m_calls := m_calls m |}, PData PART_TRAILER)
-      else if odd then
-        match nth_error (m_ranges m) i with
-        | None => Panic P_INDEX
-        | Some (a, e) =>
-            let! l := u64_sub e a in
-            mp_poll f streams
-              {| m_cur := Some {| x_s := stream_of streams (length (m_calls m)); x_rem := l |};
-                 m_state := m_state m; m_ph := m_ph m; m_ranges := m_ranges m;
-                 m_rem := m_rem m; m_calls := (a, e) :: m_calls m |}
-        end
-      else
-        match nth_error (m_ph m) i with
-        | None => Panic P_INDEX
-        | Some v =>                                         (* mem::take(&mut part_headers[i]) *)
-            let! rem := u64_sub (m_rem m) (lenN v) in
-            Ok ({| m_cur := None; m_state := S (m_state m); m_ph := set_nth i [] (m_ph m);
-                   m_ranges := m_ranges m; m_rem := rem; m_calls := m_calls m |}, PData v)
-        end in
     match m_cur m with
     | Some x =>
         let (x', r) := xl_poll x in
@@ -84,13 +87,14 @@ Fixpoint mp_poll (fuel : nat) (streams : list (list ev)) (m : mp) : M (mp * poll
             Ok ({| m_cur := None; m_state := mp_end_state m; m_ph := m_ph m; m_ranges := m_ranges m;
                    m_rem := 0; m_calls := m_calls m |}, PErr e)
         | PEnd =>
-            idle {| m_cur := None; m_state := S (m_state m); m_ph := m_ph m; m_ranges := m_ranges m;
+            mp_idle streams (mp_poll f streams)
+                 {| m_cur := None; m_state := S (m_state m); m_ph := m_ph m; m_ranges := m_ranges m;
                     m_rem := m_rem m; m_calls := m_calls m |}
         | PPending =>
             Ok ({| m_cur := Some x'; m_state := m_state m; m_ph := m_ph m; m_ranges := m_ranges m;
                    m_rem := m_rem m; m_calls := m_calls m |}, PPending)
         end
-    | None => idle m
+    | None => mp_idle streams (mp_poll f streams) m
     end
   end.
 
@@ -131,34 +135,6 @@ Fixpoint mp_poll_legacy (fuel : nat) (streams : list (list ev)) (m : mp) : M (mp
   match fuel with
   | O => Panic P_FUEL
   | S f =>
-    let idle (m : mp) : M (mp * pollres) :=
-      let i := Nat.div2 (m_state m) in
-      let odd := Nat.odd (m_state m) in
-      let n := length (m_ranges m) in
-      if Nat.eqb i n && odd then
-        if m_rem m =? 0 then Ok (m, PEnd) else Panic P_DEBUG_ASSERT
-      else if Nat.eqb i n then
-        let! rem := u64_sub (m_rem m) (lenN PART_TRAILER) in
-        Ok ({| m_cur := None; m_state := S (m_state m); m_ph := m_ph m; m_ranges := m_ranges m;
-               m_rem := rem; m_calls := m_calls m |}, PData PART_TRAILER)
-      else if odd then
-        match nth_error (m_ranges m) i with
-        | None => Panic P_INDEX
-        | Some (a, e) =>
-            let! l := u64_sub e a in
-            mp_poll_legacy f streams
-              {| m_cur := Some {| x_s := stream_of streams (length (m_calls m)); x_rem := l |};
-                 m_state := m_state m; m_ph := m_ph m; m_ranges := m_ranges m;
-                 m_rem := m_rem m; m_calls := (a, e) :: m_calls m |}
-        end
-      else
-        match nth_error (m_ph m) i with
-        | None => Panic P_INDEX
-        | Some v =>
-            let! rem := u64_sub (m_rem m) (lenN v) in
-            Ok ({| m_cur := None; m_state := S (m_state m); m_ph := set_nth i [] (m_ph m);
-                   m_ranges := m_ranges m; m_rem := rem; m_calls := m_calls m |}, PData v)
-        end in
     match m_cur m with
     | Some x =>
         let (x', r) := xl_poll x in
@@ -167,16 +143,17 @@ Fixpoint mp_poll_legacy (fuel : nat) (streams : list (list ev)) (m : mp) : M (mp
             let! rem := u64_sub (m_rem m) (lenN d) in
             Ok ({| m_cur := Some x'; m_state := m_state m; m_ph := m_ph m; m_ranges := m_ranges m;
                    m_rem := rem; m_calls := m_calls m |}, PData d)
-        | PErr e =>
+        | PErr e =>                                         (* pinned tree: cur stays *)
             Ok ({| m_cur := Some x'; m_state := mp_end_state m; m_ph := m_ph m; m_ranges := m_ranges m;
                    m_rem := 0; m_calls := m_calls m |}, PErr e)
         | PEnd =>
-            idle {| m_cur := None; m_state := S (m_state m); m_ph := m_ph m; m_ranges := m_ranges m;
+            mp_idle streams (mp_poll_legacy f streams)
+                 {| m_cur := None; m_state := S (m_state m); m_ph := m_ph m; m_ranges := m_ranges m;
                     m_rem := m_rem m; m_calls := m_calls m |}
         | PPending =>
             Ok ({| m_cur := Some x'; m_state := m_state m; m_ph := m_ph m; m_ranges := m_ranges m;
                    m_rem := m_rem m; m_calls := m_calls m |}, PPending)
         end
-    | None => idle m
+    | None => mp_idle streams (mp_poll_legacy f streams) m
     end
   end.
